@@ -1,5 +1,6 @@
 import QV.Model.Compiler
 import QV.Proofs.Circuit
+import QV.Proofs.CompilerInv
 /-!
 # C02 – The circuit computes the function's boolean expressions
 
@@ -20,6 +21,13 @@ for gate; see `known_findings.json`), so what is proved here is (partial):
 * universal facts about pieces of the compiler, for all gate lists: `remove_identities`
   (step 3 of `compile`) preserves the classical action; every X/CX/MCX gate on distinct wires
   is an involution and a reverse replay undoes a gate list (what `uncompute` relies on).
+* universal **structural** theorems about `compile` itself, for every input list, definition
+  list, return list, uncompute flag and sequence of ancilla choices (every successful run of
+  the model): `compile_gates_wellformed` (only X/CX/MCX gates, on distinct wires, every wire
+  `< numQubits`, arity matches the class), `compile_lhs_mapped` / `compile_rets_mapped` ("every
+  return bit is mapped to a qubit"), `compile_inputs_first` (arguments on qubits `0..n-1`),
+  `compile_bookkeeping`; with the corollaries `compile_remove_identities_preserves` and
+  `compile_reverse_replay_undoes`.  They say nothing about the *values* on the qubits.
 -/
 namespace QV.C02
 open QV QV.Compiler
@@ -95,5 +103,151 @@ theorem or_nary_witness :
     validate [{ cls := .CX, wires := [0, 3] }, { cls := .CX, wires := [1, 3] }, { cls := .CX, wires := [2, 3] },
               { cls := .MCX 3, wires := [0, 1, 2, 3] }] 4 [("v0", 0), ("v1", 1), ("v2", 2), ("_ret", 3)]
       ["v0", "v1", "v2"] [("_ret", .or [.sym "v0", .sym "v1", .sym "v2"])] ["_ret"] = false := by decide
+
+/-! ## Structural theorems about every run of `compile`
+
+`(compile inputs defs ret unc).run { choices := cs } = .ok ((), s)` ranges over every successful
+run of the compiler model: every program, with or without a return list, with or without final
+uncomputation, for every sequence `cs` of popped ancillas (inadmissible sequences make the
+model fail, so they are covered vacuously).  Proofs: `QV/Proofs/CompilerInv.lean` (state
+invariant `Good`, one Hoare-style lemma per primitive, mutual induction `exprSpec` /
+`argsSpec` / `xorSpec` over `compileExpr` / `compileArgs` / `compileXorArgs`). -/
+
+/-- **(1) gates are well formed.**  Every gate of every compiled circuit is X/CX/MCX-like, acts
+on pairwise distinct wires, every wire is a qubit of the circuit (strictly below `numQubits`:
+`QCircuit.append` itself only rejects `> numQubits`, the strict bound comes from the invariant
+that every index the compiler stores anywhere is below `numQubits`), and the number of wires is
+the arity of the gate class. -/
+theorem compile_gates_wellformed (inputs : List String) (defs : List (String × BExp))
+    (ret : Option (List String)) (unc : Bool) (cs : List Nat) (s : CState)
+    (h : (compile inputs defs ret unc).run { choices := cs } = .ok ((), s)) :
+    ∀ g ∈ s.qc.gates.toList, g.cls.isMCXLike = true ∧ g.wires.Nodup ∧
+      (∀ w ∈ g.wires, w < s.qc.numQubits) ∧ g.wires.length = g.cls.nQubits :=
+  (compile_ok h).1.gates_ok
+
+/-- (1) in the form of the decidable predicate the check evaluates on every instance -/
+theorem compile_wellFormed (inputs : List String) (defs : List (String × BExp))
+    (ret : Option (List String)) (unc : Bool) (cs : List Nat) (s : CState)
+    (h : (compile inputs defs ret unc).run { choices := cs } = .ok ((), s)) :
+    wellFormed s.qc.gates.toList s.qc.numQubits = true ∧ allClassical s.qc.gates.toList = true := by
+  have hw := compile_gates_wellformed inputs defs ret unc cs s h
+  constructor
+  · simp only [wellFormed, List.all_eq_true, Bool.and_eq_true, Bool.or_eq_true, decide_eq_true_eq,
+      beq_iff_eq]
+    intro g hg
+    obtain ⟨h1, h2, h3, h4⟩ := hw g hg
+    exact ⟨⟨⟨Or.inl h1, h2⟩, h3⟩, h4⟩
+  · simp only [allClassical, List.all_eq_true, Bool.or_eq_true]
+    exact fun g hg => Or.inl (hw g hg).1
+
+/-- corollary of (1): on every compiled circuit `remove_identities` keeps the classical action -/
+theorem compile_remove_identities_preserves (inputs : List String) (defs : List (String × BExp))
+    (ret : Option (List String)) (unc : Bool) (cs : List Nat) (s : CState)
+    (h : (compile inputs defs ret unc).run { choices := cs } = .ok ((), s)) (st : BState) :
+    runClassical (removeIdentitiesList s.qc.gates.toList) st = runClassical s.qc.gates.toList st :=
+  removeIdentitiesList_sound _ (fun g hg => (compile_gates_wellformed inputs defs ret unc cs s h g hg).2.1) st
+
+/-- corollary of (1): replaying any compiled circuit in reverse undoes its classical action -/
+theorem compile_reverse_replay_undoes (inputs : List String) (defs : List (String × BExp))
+    (ret : Option (List String)) (unc : Bool) (cs : List Nat) (s : CState)
+    (h : (compile inputs defs ret unc).run { choices := cs } = .ok ((), s)) (st : BState) :
+    runClassical (s.qc.gates.toList ++ s.qc.gates.toList.reverse) st = st :=
+  runClassical_reverse_undo _ (fun g hg => (compile_gates_wellformed inputs defs ret unc cs s h g hg).2.1) st
+
+/-- **(2) left-hand sides stay mapped.**  Every left-hand symbol of the definition list that is
+not a scratch name (a temporary `__x`, whose name `map_qubit` deletes when the qubit is promoted
+under another name, or an ancilla-shaped name `anc_…`) is a key of the final `qubit_map`, and
+the qubit it names exists. -/
+theorem compile_lhs_mapped (inputs : List String) (defs : List (String × BExp))
+    (ret : Option (List String)) (unc : Bool) (cs : List Nat) (s : CState)
+    (h : (compile inputs defs ret unc).run { choices := cs } = .ok ((), s)) :
+    ∀ p ∈ defs, scratchName p.1 = false →
+      ∃ q, dictGet? s.qc.qmap p.1 = some q ∧ q < s.qc.numQubits := by
+  intro p hp hs
+  obtain ⟨hg, _, hk, _, _⟩ := compile_ok h
+  have := hk p hp hs
+  cases hq : dictGet? s.qc.qmap p.1 with
+  | none => rw [hq] at this; cases this
+  | some q => exact ⟨q, rfl, hg.qmap_lt _ (dictGet?_mem hq)⟩
+
+/-- what the front end guarantees about the return names: each is the left-hand side of a
+definition and is not a scratch name -/
+def retsDefined (defs : List (String × BExp)) (rets : List String) : Bool :=
+  rets.all fun r => defs.any (·.1 == r) && !scratchName r
+
+/-- **(2') every return bit is mapped to a qubit**, with and without final uncomputation -/
+theorem compile_rets_mapped (inputs : List String) (defs : List (String × BExp))
+    (rets : List String) (unc : Bool) (cs : List Nat) (s : CState)
+    (h : (compile inputs defs (some rets) unc).run { choices := cs } = .ok ((), s))
+    (hr : retsDefined defs rets = true) :
+    ∀ r ∈ rets, ∃ q, dictGet? s.qc.qmap r = some q ∧ q < s.qc.numQubits := by
+  intro r hrm
+  simp only [retsDefined, List.all_eq_true, Bool.and_eq_true, List.any_eq_true, Bool.not_eq_true'] at hr
+  obtain ⟨⟨p, hp, hpr⟩, hs⟩ := hr r hrm
+  have hpr' : p.1 = r := by simpa using hpr
+  subst hpr'
+  exact compile_lhs_mapped inputs defs (some rets) unc cs s h p hp hs
+
+/-- what the front end guarantees about the argument names: pairwise distinct, not reserved
+(`TRUE`, `FALSE`, `__…`, `anc_…`) and never re-bound by a definition -/
+def inputsFresh (inputs : List String) (defs : List (String × BExp)) : Bool :=
+  decide inputs.Nodup && inputs.all fun n => !reservedName n && !(defs.map (·.1)).contains n
+
+/-- **(3) inputs first.**  The `i`-th argument is mapped to qubit `i` in the final `qubit_map`
+(what `input_qubits` and the validators assume), and these qubits exist. -/
+theorem compile_inputs_first (inputs : List String) (defs : List (String × BExp))
+    (ret : Option (List String)) (unc : Bool) (cs : List Nat) (s : CState)
+    (h : (compile inputs defs ret unc).run { choices := cs } = .ok ((), s))
+    (hf : inputsFresh inputs defs = true) :
+    inputs.length ≤ s.qc.numQubits ∧
+    ∀ (i : Nat) (x : String), inputs[i]? = some x → dictGet? s.qc.qmap x = some i := by
+  obtain ⟨_, hlen, _, hpos, _⟩ := compile_ok h
+  simp only [inputsFresh, Bool.and_eq_true, decide_eq_true_eq, List.all_eq_true, Bool.not_eq_true',
+    List.contains_eq_mem, decide_eq_false_iff_not] at hf
+  exact ⟨hlen, hpos hf.1 (fun n hn => hf.2 n hn)⟩
+
+/-- **(4) bookkeeping that holds**: every index stored in the ancilla set, the free set, the
+marked set and the `qubit_map` is a qubit of the circuit; the ancilla set is duplicate-free; a
+name mapped to a qubit that is still in the ancilla set is a scratch name (so no promoted
+left-hand side sits on an ancilla); no argument qubit (index below the number of inputs) is ever
+in the ancilla, free or marked set, so none is handed out as scratch space. -/
+theorem compile_bookkeeping (inputs : List String) (defs : List (String × BExp))
+    (ret : Option (List String)) (unc : Bool) (cs : List Nat) (s : CState)
+    (h : (compile inputs defs ret unc).run { choices := cs } = .ok ((), s)) :
+    (∀ a ∈ s.qc.anc, a < s.qc.numQubits) ∧ (∀ a ∈ s.qc.free, a < s.qc.numQubits) ∧
+    (∀ a ∈ s.qc.marked, a < s.qc.numQubits) ∧ (∀ p ∈ s.qc.qmap, p.2 < s.qc.numQubits) ∧
+    s.qc.anc.Nodup ∧ (∀ p ∈ s.qc.qmap, p.2 ∈ s.qc.anc → scratchName p.1 = true) ∧
+    (∀ a ∈ s.qc.anc, inputs.length ≤ a) ∧ (∀ a ∈ s.qc.free, inputs.length ≤ a) ∧
+    (∀ a ∈ s.qc.marked, inputs.length ≤ a) :=
+  have hg := (compile_ok h).1
+  have hs := (compile_ok h).2.2.2.2
+  ⟨hg.anc_lt, hg.free_lt, hg.marked_lt, hg.qmap_lt, hg.anc_nodup, hg.anc_named, hs.1, hs.2.1, hs.2.2⟩
+
+/-- (4) bookkeeping that does **not** hold: `free ⊆ anc` fails – a temporary that was marked and
+uncomputed early (event `markNamedTemp`, finding `C02-temp-uncomputed-early`) and is promoted
+afterwards leaves the free set holding the qubit the return bit is mapped to -/
+theorem free_subset_anc_fails_witness :
+    (match (compile ["a", "b"] [("__t", .xor [.sym "a", .sym "b"]),
+        ("__u", .xor [.not (.sym "__t"), .sym "a"]), ("_ret", .sym "__t")] (some ["_ret"]) false).run
+        { choices := [2, 3] } with
+      | .ok (_, s) => s.qc.anc == [3] && s.qc.free == [2] && dictGet? s.qc.qmap "_ret" == some 2
+      | .error _ => false) = true := by decide +kernel
+
+/-- non-vacuity: a run of the model that uses an ancilla, promotes it and deletes a temporary
+name succeeds; its hypotheses `retsDefined` / `inputsFresh` hold -/
+example : ∃ s, (compile ["a", "b"] [("__t", .xor [.sym "a", .sym "b"]), ("_ret", .not (.sym "__t"))]
+    (some ["_ret"]) true).run { choices := [2] } = .ok ((), s) := by
+  have h : ((compile ["a", "b"] [("__t", .xor [.sym "a", .sym "b"]), ("_ret", .not (.sym "__t"))]
+      (some ["_ret"]) true).run { choices := [2] }).toBool = true := by decide +kernel
+  cases hrun : (compile ["a", "b"] [("__t", .xor [.sym "a", .sym "b"]), ("_ret", .not (.sym "__t"))]
+      (some ["_ret"]) true).run { choices := [2] } with
+  | ok p => exact ⟨p.2, rfl⟩
+  | error e => rw [hrun] at h; cases h
+
+example : retsDefined [("__t", .xor [.sym "a", .sym "b"]), ("_ret", .not (.sym "__t"))] ["_ret"] = true := by
+  decide +kernel
+
+example : inputsFresh ["a", "b"] [("__t", .xor [.sym "a", .sym "b"]), ("_ret", .not (.sym "__t"))] = true := by
+  decide +kernel
 
 end QV.C02
